@@ -41,27 +41,47 @@ def main():
     _, withc, _ = go_tests(wt)
     report["existing_tests_same"] = (base == withc)
     report["existing_tests"] = [" ".join(x) for x in withc]
-    # run our checks against /repo with the patch applied
-    rc, out = sh("git -C /repo status --short")
-    assert not out.strip(), "/repo not clean: " + out
-    rc, out = sh("git -C /repo apply %s" % os.path.join(outdir, "patch.diff"))
-    assert rc == 0, "patch does not apply: " + out
+    # run our checks against the change.  Default: against the scratch worktree itself (VERIF_REPO), with evidence and replays
+    # redirected (VERIF_SCRATCH_OUT), so that neither /repo nor /verif/evidence is disturbed while other runs are going on.
+    # SEEDEVAL_INPLACE=1: git -C /repo apply; ./check; git -C /repo checkout -- .   (as the registered commands run)
     results = {}
-    # checks rewrite evidence/<id>.json on every run: keep the clean-tree evidence
-    import tempfile
-    keep = tempfile.mkdtemp(prefix="evid-", dir="/verif/.work")
-    for f in os.listdir("/verif/evidence"):
-        shutil.copy(os.path.join("/verif/evidence", f), keep)
+    inplace = os.environ.get("SEEDEVAL_INPLACE") == "1"
+    if inplace:
+        rc, out = sh("git -C /repo status --short")
+        assert not out.strip(), "/repo not clean: " + out
+        rc, out = sh("git -C /repo apply %s" % os.path.join(outdir, "patch.diff"))
+        assert rc == 0, "patch does not apply: " + out
+        import tempfile
+        keep = tempfile.mkdtemp(prefix="evid-", dir="/verif/.work")
+        for f in os.listdir("/verif/evidence"):
+            shutil.copy(os.path.join("/verif/evidence", f), keep)
+        pre = ""
+    else:
+        aside = os.path.join(outdir, "demo_aside_test.go.txt")
+        shutil.move(os.path.join(wt, demo_rel), aside)          # the demo must not be compiled into the harness binary
+        scratch = os.path.join(outdir, "checkout")
+        os.makedirs(scratch, exist_ok=True)
+        pre = "VERIF_REPO=%s VERIF_SCRATCH_OUT=%s " % (wt, scratch)
     try:
         for c in checks:
-            rc, out = sh("./check %s --tier quick" % c, cwd="/verif", timeout=3000)
+            rc, out = sh(pre + "./check %s --tier quick" % c, cwd="/verif", timeout=3000)
             lines = [l for l in out.split("\n") if l.startswith("VIOLATION")]
-            results[c] = {"exit": rc, "violation_lines": len(lines), "first": (out.split("\n")[1][:300] if lines and len(out.split("\n")) > 1 else "")}
+            allv = out.split("\n")
+            first = ""
+            for i, l in enumerate(allv):
+                if l.startswith("VIOLATION") and i + 1 < len(allv):
+                    first = allv[i + 1][:300]
+                    break
+            results[c] = {"exit": rc, "violation_lines": len(lines), "first": first,
+                          "no_failing_input_found": any(l.rstrip().endswith("no-failing-input-found") for l in lines)}
     finally:
-        sh("git -C /repo checkout -- .")
-        for f in os.listdir(keep):
-            shutil.copy(os.path.join(keep, f), "/verif/evidence")
-        shutil.rmtree(keep, ignore_errors=True)
+        if inplace:
+            sh("git -C /repo checkout -- .")
+            for f in os.listdir(keep):
+                shutil.copy(os.path.join(keep, f), "/verif/evidence")
+            shutil.rmtree(keep, ignore_errors=True)
+        else:
+            shutil.move(aside, os.path.join(wt, demo_rel))
     report["checks"] = results
     report["detected_by"] = [c for c, r in results.items() if r["exit"] != 0]
     n = 0
@@ -74,7 +94,8 @@ def main():
     shutil.copy(demo, dest)
     meta["confirmation"] = report
     meta["what_was_run"] = ["go test (demo) with and without the change in a scratch worktree", "existing tests with and without the change",
-                            "git -C /repo apply patch.diff; ./check <id> --tier quick; git -C /repo checkout -- ."]
+                            ("git -C /repo apply patch.diff; ./check <id> --tier quick; git -C /repo checkout -- ." if inplace else
+                             "VERIF_REPO=<scratch worktree with the change> ./check <id> --tier quick (evidence/replays redirected)")]
     json.dump(meta, open(os.path.join(dest, "meta.json"), "w"), indent=1)
     print(json.dumps(report, indent=1))
 
